@@ -96,8 +96,14 @@ containment("_filter:FilterPresent.unpack", options=_FO,
 
 # BindRequest / SearchRequest: the fixed leading components, in order, each read with its universal tag
 _E = lambda k: _V if k == 0 else "rest_of(%s)" % _E(k - 1)        # the octets starting at the k-th element
-containment("_messages:_unpack_bind_request", options=_PO,
-            ensures=["result.message_id == message_id", "result.version == tc(content_of(%s))" % _E(0), "result.name == unutf8(content_of(%s))" % _E(1)])
+containment("_messages:_unpack_bind_request", options=_PO, witness={"v1": "reader_view_1", "v2": "reader_view_2"}, witness_sorts={"v1": "bytes", "v2": "bytes"},
+            ensures=["result.message_id == message_id", "v1 == rest_of(%s)" % _V, "v2 == rest_of(v1)",
+                     "result.version == tc(content_of(%s))" % _V, "result.name == unutf8(content_of(v1))",
+                     # authentication AuthenticationChoice: the third element selects the class by its context tag number
+                     "isinstance(result.authentication, SimpleCredential) == (id_number(v2) == 0)",
+                     "isinstance(result.authentication, SaslCredential) == (id_number(v2) == 3)",
+                     "implies(id_number(v2) == 0, result.authentication.password == unutf8(content_of(v2)))",
+                     "implies(id_number(v2) == 3, result.authentication.mechanism == unutf8(content_of(content_of(v2))))"])
 # hints: the k-th element starts at the sum of the lengths of the elements before it (flattened form of the nested rest_of)
 _OFF = lambda k: " + ".join("tlv_len(%s)" % _E(i) for i in range(k))
 _FLAT = ["%s == drop(%s, %s)" % (_E(k), _V, _OFF(k)) for k in range(2, 6)]
@@ -224,3 +230,30 @@ containment("_messages:_unpack_search_request", options=_PO, witness=_CH, witnes
                      "implies(len(content_of(v5)) == 1, result.types_only == (content_of(v5)[0] != 0))",
                      # attributes AttributeSelection: the SEQUENCE that follows the filter (v7 = the view after the filter)
                      "id_class(v7) == 0", "id_number(v7) == 16"] + _list_post("result.attributes", "content_of(v7)", _STR_ELEM))
+
+# AuthenticationChoice dispatch: the class is chosen by the context tag number; the fields are those of the chosen class's decoder
+containment("_authentication:AuthenticationCredential.unpack", options=_AO,
+            ensures=["id_class(%s) == 2" % _V,
+                     "isinstance(result, SimpleCredential) == (id_number(%s) == 0)" % _V,
+                     "isinstance(result, SaslCredential) == (id_number(%s) == 3)" % _V,
+                     "reader._view == rest_of(%s)" % _V,
+                     "implies(id_number(%s) == 0, result.password == unutf8(%s))" % (_V, _C),
+                     "implies(id_number(%s) == 3, result.mechanism == unutf8(content_of(%s)))" % (_V, _C),
+                     "implies(id_number(%s) == 3, (result.credentials is not None) == %s)" % (_V, _IS_OCTETS(_R)),
+                     "implies(id_number(%s) == 3 and %s, result.credentials == content_of(%s))" % (_V, _IS_OCTETS(_R), _R)])
+
+# SearchResultEntry ::= SEQUENCE { objectName LDAPDN, attributes PartialAttributeList }: the object name, and as many PartialAttribute
+# items as the attribute list has elements (what each item is, is the postcondition of _unpack_partial_attribute; carrying it through
+# the list as a nested quantified invariant is beyond the solvers' budget)
+_AS = "content_of(rest_of(%s))" % _V                   # the element stream of the attribute list
+containment("_messages:_unpack_search_result_entry", options=_PO,
+            ensures=["result.message_id == message_id", "result.object_name == unutf8(content_of(%s))" % _V,
+                     "len(nth_rest(%s, len(result.attributes))) == 0" % _AS,
+                     "forall(q, 0, len(result.attributes), len(nth_rest(%s, q)) > 0)" % _AS],
+            loops={0: dict(snapshot={"r0": "attr_reader._view"},
+                           invariant=["attr_reader._view == nth_rest(r0, len(attributes))",
+                                      "forall(q, 0, len(attributes), len(nth_rest(r0, q)) > 0)"],
+                           snapshot_each={"k0": "len(attributes)"},
+                           body_hints=["lemma_nth_rest_step(r0, k0)", "len(attributes) == k0 + 1"],
+                           decreases="len(attr_reader._view)")},
+            exit_hints=["r0 == %s" % _AS])
